@@ -3,6 +3,22 @@
 import json, os
 V = os.path.dirname(os.path.dirname(os.path.abspath(__file__)))
 CHECKS = {
+ 'C01': dict(
+    level=('other', 'Bounded structure space (every AUTOSEMI-free token string of length <= 3/4 accepted by the real LALR tables, one sentence per production, literal-kind and block-nesting variants; thorough: + every production pair) parsed by the real parser; the real pretty printer then runs under SX with every leaf spelling (identifier, number, string, regex) a z3 string ranging over its token language (translated from the live lexer patterns). '
+                    'Per path (= one set of layout decisions of the real handlers) z3 decides for every directly adjacent token pair that no spelling makes them fuse or change lexical class (calmjs token languages and ES5 7.8.3) and that no line terminator lands in a restricted production; each path model is instantiated and replayed: parse-print-parse tree identity, byte fix-point, reference ES5 scanner segmentation.', 'DESIGN.md C01'),
+    note='Trusted: leaf abstraction (parser depends on spellings only through token types), class alphabet, ref/refscan.py as "any conforming ES5 scanner". Outside: program shapes beyond the space, spellings longer than 3-5 characters, comments (C13).',
+    technique='symbolic execution of the real printer code with z3 strings for all leaf spellings over a bounded, table-derived structure space; path models replayed through parse/print/parse',
+    engine='SX+GX+RX'),
+ 'C02': dict(
+    level=('other', 'Same harness as C01 with the real minify printer, drop_semi off and on: z3 decides per path and adjacent token pair (specialised by lexical class of the left token) that no spelling fuses them; every path model replayed for tree identity (string continuations stripped, stand-alone empty statements ignored) and for the reference ES5 scanner reading exactly the printed tokens; dropped semicolons are judged by the re-parse.', 'DESIGN.md C02'),
+    note='As C01. Known findings (fusion classes with non-\\w identifier characters, regex+keyword, number+.) are matched by the lexical classes of the fused pair so any other pair is still reported.',
+    technique='symbolic execution of the real minifier code with z3 strings for all leaf spellings over a bounded, table-derived structure space; path models replayed',
+    engine='SX+GX+RX'),
+ 'C20': dict(
+    level=('other', 'The real pretty printer runs under SX with the INDENTATION STRING symbolic (z3 string over space/tab, length <= 3, empty included) and symbolic leaf spellings on every structure of the C01 space; per path z3 decides that every token-starting line begins with exactly indent_str x depth (depth from an independent brace/case counter over the output skeleton), final depth 0, exactly one trailing newline.', 'DESIGN.md C20'),
+    note='Trusted: the depth reference (open braces + 1 in case/default bodies). Outside: comments and multi-line tokens, deeper programs, histories of printer reuse (C14).',
+    technique='symbolic execution of the real pretty printer with a symbolic indentation string and symbolic leaves (z3 strings), bounded structure space',
+    engine='SX+GX+RX'),
  'C03': dict(
     level=('model_checking', 'Bounded monolithic SAT: for each length n one query over ALL token strings in Sigma^n (91 terminals) decides LR-SAT(real ply LALR tables regenerated from the working tree, plus the ProductionError side condition found by executing the actions) against CFG-SAT(ECMA-262 Annex A.3-A.5 reference grammar), both directions, and - where both accept - equality of every labelled node span (node kind from executing the real p_* action + terminal skeleton). '
                               'A second leg compares the yield language of each of 100 corresponding non-terminals (phrases <= 6/7 tokens), embedding and replaying every witness, which reaches deviations whose smallest program is longer than the sentence bound. quick: acceptance n<=7, tree n<=6; thorough: 9 / 8.', 'DESIGN.md C03'),
